@@ -346,8 +346,8 @@ theorem C41_tasks_once (c : Cfg) (sched : List Action) :
 
 /-- non-vacuity: on the witness of the recorded defect the task IS processed exactly once —
     what fails there is only that the frame ends Enriched -/
-example : (run defaultCfg init witnessSeq).qlog = [1] ∧ (run defaultCfg init witnessSeq).plog = [1] ∧
-    Quiescent (run defaultCfg init witnessSeq) ∧ ¬ OnceAt (run defaultCfg init witnessSeq) := by decide
+example : (run walCfg init witnessSeq).qlog = [1] ∧ (run walCfg init witnessSeq).plog = [1] ∧
+    Quiescent (run walCfg init witnessSeq) ∧ ¬ OnceAt (run walCfg init witnessSeq) := by decide
 
 /-! ### C41_once_partial -/
 
